@@ -7,10 +7,12 @@ import (
 	"fmt"
 	"io"
 	"sort"
+	"strings"
 	"sync"
 	"sync/atomic"
 	"testing"
 	"testing/synctest"
+	"time"
 
 	goat "github.com/avos-io/goat"
 	"github.com/avos-io/goat/gen/goatorepo"
@@ -588,4 +590,233 @@ func TestC05Surplus(t *testing.T) {
 			Tags: tags, Coq: fmt.Sprintf("C05Free %d %s %s", len(ids), coqList(ids), coqList(pairs))})
 		em.Marker("end", idx)
 	})
+}
+
+// ---------------------------------------------------------------- C05: slow readers and the virtual clock
+
+// TestC05Slow: call A (a stream) takes no response while the peer sends it n >= 4
+// envelopes (and some to call B); the virtual clock is advanced (time.Sleep in
+// the bubble: any timer a change introduces fires only when time passes) by
+// 10 ms / 100 ms / 1 s at several points; then A is drained completely. What A
+// receives must be, position by position, what was sent to A.
+func TestC05Slow(t *testing.T) {
+	em := NewEmitter()
+	defer em.Close()
+	idx := 0
+	for _, n := range []int{4, 5, 7} {
+		for _, d := range []time.Duration{10 * time.Millisecond, 100 * time.Millisecond, time.Second} {
+			for pat := 0; pat < 4; pat++ { // where the clock advances: after every delivery / after the 2nd / before the drain only / during the drain
+				for _, withB := range []bool{false, true} {
+					if !want(idx) {
+						idx++
+						continue
+					}
+					em.Marker("begin", idx)
+					var sentA, gotA, sentB, gotB []string
+					leaked := bubble(t, func(t *testing.T) {
+						ep := NewEndpoint("client")
+						cc := goat.NewClientConn(ep, "src", "dst")
+						csA, err := cc.NewStream(context.Background(), descBidi, "/verif.Echo/Bidi")
+						if err != nil {
+							t.Fatal(err)
+						}
+						synctest.Wait()
+						idA := ep.WrittenCopy()[0].Id
+						var csB interface {
+							RecvMsg(any) error
+						}
+						var idB uint64
+						if withB {
+							b, err := cc.NewStream(context.Background(), descBidi, "/verif.Echo/Bidi")
+							if err != nil {
+								t.Fatal(err)
+							}
+							csB = b
+							synctest.Wait()
+							idB = ep.WrittenCopy()[1].Id
+						}
+						msg := func(id uint64, tok int64, last bool) *Rpc {
+							b, _ := proto.Marshal(&wrapperspb.BytesValue{Value: payloadOf(tok)})
+							r := &Rpc{Id: id, Header: hdr("/verif.Echo/Bidi", "dst", "src"), Body: &goatorepo.Body{Data: b}}
+							if last {
+								r = &Rpc{Id: id, Header: hdr("/verif.Echo/Bidi", "dst", "src"), Status: &goatorepo.ResponseStatus{Code: 0}, Trailer: &goatorepo.Trailer{}}
+							}
+							return r
+						}
+						for i := 0; i < n; i++ {
+							last := i == n-1
+							ep.Deliver(msg(idA, int64(1000+i), last))
+							if !last {
+								sentA = append(sentA, fmt.Sprint(1000+i))
+							}
+							synctest.Wait()
+							if withB && i%2 == 1 {
+								ep.Deliver(msg(idB, int64(2000+i), false))
+								sentB = append(sentB, fmt.Sprint(2000+i))
+								synctest.Wait()
+							}
+							if pat == 0 || (pat == 1 && i == 1) {
+								time.Sleep(d)
+								synctest.Wait()
+							}
+						}
+						sentA = append(sentA, "-1") // the clean end after the trailer
+						if pat == 2 {
+							time.Sleep(d)
+							synctest.Wait()
+						}
+						drain := func(cs interface{ RecvMsg(any) error }, limit int, out *[]string) {
+							for i := 0; i < limit; i++ {
+								var done atomic.Bool
+								var m wrapperspb.BytesValue
+								var rerr error
+								go func() { rerr = cs.RecvMsg(&m); done.Store(true) }()
+								synctest.Wait()
+								if pat == 3 {
+									time.Sleep(d)
+									synctest.Wait()
+								}
+								if !done.Load() {
+									*out = append(*out, "-2")
+									return
+								}
+								if rerr == io.EOF {
+									*out = append(*out, "-1")
+									return
+								}
+								if rerr != nil {
+									*out = append(*out, "-3")
+									return
+								}
+								*out = append(*out, fmt.Sprint(tokenOf(m.Value)))
+							}
+						}
+						var bMu sync.Mutex
+						if withB { // B keeps up: a reader is always waiting (its envelopes may be stuck behind A's unread ones on the
+							// shared transport until A drains: they must then arrive, in order)
+							nb := len(sentB)
+							go func() {
+								for i := 0; i < nb; i++ {
+									var m wrapperspb.BytesValue
+									if err := csB.RecvMsg(&m); err != nil {
+										bMu.Lock()
+										gotB = append(gotB, "-3")
+										bMu.Unlock()
+										return
+									}
+									bMu.Lock()
+									gotB = append(gotB, fmt.Sprint(tokenOf(m.Value)))
+									bMu.Unlock()
+								}
+							}()
+							synctest.Wait()
+						}
+						drain(csA, n+1, &gotA)
+						synctest.Wait()
+						bMu.Lock()
+						for len(gotB) < len(sentB) {
+							gotB = append(gotB, "-2")
+						}
+						bMu.Unlock()
+						ep.FailRead(errInjected)
+						synctest.Wait()
+					})
+					tags := []string{fmt.Sprintf("unread=%d", n), "clock+" + d.String(), fmt.Sprintf("advance-pattern=%d", pat), fmt.Sprintf("other-call=%v", withB)}
+					if leaked {
+						tags = append(tags, "leaked-at-end")
+					}
+					neg := func(l []string) []string {
+						o := make([]string, len(l))
+						for i, v := range l {
+							if strings.HasPrefix(v, "-") {
+								o[i] = "(" + v + ")"
+							} else {
+								o[i] = v
+							}
+						}
+						return o
+					}
+					em.Emit(Rec{Idx: idx, Kind: "c05-slow", Desc: map[string]any{"sentA": sentA, "gotA": gotA, "sentB": sentB, "gotB": gotB},
+						Tags: tags, Coq: fmt.Sprintf("C05Order %s %s %s %s", coqList(neg(sentA)), coqList(neg(gotA)), coqList(neg(sentB)), coqList(neg(gotB)))})
+					em.Marker("end", idx)
+					idx++
+				}
+			}
+		}
+	}
+}
+
+// ---------------------------------------------------------------- C05 (server side, cheap to host here): stream keys
+
+// TestC05ServerKeys: ONE server connection (scripted peer) carrying bidi streams
+// of several sources whose names and ids collide under naive concatenation
+// ("client-1"/12 vs "client-11"/2 ...), alive at the same time: every stream's
+// handler must see its own messages only, every reply must go back under its
+// own id to its own source.
+func TestC05ServerKeys(t *testing.T) {
+	em := NewEmitter()
+	defer em.Close()
+	sets := [][][2]any{
+		{{"client-1", 12}, {"client-11", 2}},
+		{{"client-1", 10}, {"client-11", 0}, {"client-110", 7}},
+		{{"a", 11}, {"a1", 1}, {"a11", 5}},
+		{{"p2", 34}, {"p23", 4}, {"p", 234}},
+	}
+	for idx, set := range sets {
+		if !want(idx) {
+			continue
+		}
+		em.Marker("begin", idx)
+		var pairs []string
+		leaked := bubble(t, func(t *testing.T) {
+			ep := NewEndpoint("server")
+			ctx, cancel := context.WithCancel(context.Background())
+			srv := newEchoServer("srv", plusOneEcho())
+			go srv.Serve(ctx, ep)
+			for _, sk := range set {
+				ep.Deliver(&Rpc{Id: uint64(sk[1].(int)), Header: hdr("/verif.Echo/Bidi", sk[0].(string), "srv")})
+				synctest.Wait()
+			}
+			for round := 0; round < 2; round++ {
+				for i, sk := range set {
+					tok := int64(100*(i+1) + round)
+					b, _ := proto.Marshal(&wrapperspb.BytesValue{Value: payloadOf(tok)})
+					n0 := len(ep.WrittenCopy())
+					ep.Deliver(&Rpc{Id: uint64(sk[1].(int)), Header: hdr("/verif.Echo/Bidi", sk[0].(string), "srv"), Body: &goatorepo.Body{Data: b}})
+					synctest.Wait()
+					got := int64(-2)
+					for _, w := range ep.WrittenCopy()[n0:] {
+						if w.GetBody() == nil {
+							continue
+						}
+						if w.Id == uint64(sk[1].(int)) && w.GetHeader().GetDestination() == sk[0].(string) {
+							got = reqToken(w)
+						} else {
+							got = -4 // an answer under another stream's id / to another source
+						}
+					}
+					pairs = append(pairs, fmt.Sprintf("(%d, %s)", tok, coqZ(got)))
+				}
+			}
+			cancel()
+			ep.FailRead(io.EOF)
+			synctest.Wait()
+		})
+		tags := []string{fmt.Sprintf("sources=%d", len(set)), "colliding-source+id"}
+		if leaked {
+			tags = append(tags, "leaked-at-end")
+		}
+		var ids []int
+		for _, sk := range set {
+			ids = append(ids, sk[1].(int))
+		}
+		sort.Ints(ids)
+		var idTerms []string
+		for _, v := range ids {
+			idTerms = append(idTerms, fmt.Sprint(v+1)) // ids may be 0 here: shift so that the positivity check of C05Free holds
+		}
+		em.Emit(Rec{Idx: idx, Kind: "c05-server-keys", Desc: map[string]any{"streams": set, "pairs": pairs},
+			Tags: tags, Coq: fmt.Sprintf("C05Free %d %s %s", len(ids), coqList(idTerms), coqList(pairs))})
+		em.Marker("end", idx)
+	}
 }
